@@ -33,6 +33,8 @@ FAULTS = [
     # (name, text with @ at the place of the problem, text that must survive)
     ('open-inline', 'Alpha @$x + y Beta gamma.\n\nDelta epsilon.', 'Delta epsilon.'),
     ('open-inline-paren', 'Alpha @\\(x Beta.\n\nDelta.', 'Delta.'),
+    ('open-inline-comment', 'Alpha @$x + y Beta gamma. % remark\n \t\nDelta epsilon.', 'Delta epsilon.'),
+    ('open-display-comment', 'Alpha\n@\\[ a = b % remark\n  \nDelta epsilon.', 'Delta epsilon.'),
     ('open-display', 'Alpha\n@\\[ a = b\n\nDelta epsilon.', 'Delta epsilon.'),
     ('open-equation', 'Alpha\n@\\begin{equation} a = b\n\nDelta epsilon.', 'Delta epsilon.'),
     ('open-mandatory', 'Alpha \\textbf{ok} \\footnote@{Beta gamma', 'Beta gamma'),
@@ -173,6 +175,31 @@ def accent_cases(rng, tier):
     return out
 
 
+def undecodable_stream(res):
+    """an \\LTinput file that exists but cannot be decoded is an unreadable
+    file: diagnostic, mark at the \\LTinput, the text behind it kept"""
+    import contextlib, io
+    from yalafi import tex2txt
+    universe.scratch_dir()
+    with open('c08latin1.tex', 'wb') as f:
+        f.write(b'\\newcommand{\\lat}{\xe4\xf6}\n')
+    tex = 'Alpha \\LTinput{c08latin1.tex} Beta gamma\n'
+    for o in ({}, {'seqs': True}, {'lang': 'de'}):
+        res.count('undecodable', tuple(sorted(o.items())), nontrivial=True)
+        err = io.StringIO()
+        try:
+            with contextlib.redirect_stderr(err):
+                txt = tex2txt.tex2txt(tex, tex2txt.Options(pack='*', **o))[0]
+        except BaseException as e:
+            res.failures.append(('c08-undecodable:%r' % (o,), {'latex': tex, 'options': o},
+                                 'file that cannot be decoded: %r' % e))
+            continue
+        if MARK not in txt or 'LaTeX error' not in err.getvalue() or 'Beta gamma' not in txt:
+            res.failures.append(('c08-undecodable:%r' % (o,), {'latex': tex, 'options': o},
+                                 'file that cannot be decoded: text %r, diagnostic %r'
+                                 % (txt, err.getvalue()[:120])))
+
+
 def reuse_stream(res):
     """Python interface: one Parameters object (and one Parser object) used
     for several documents -- every call that puts a mark into the text prints
@@ -206,6 +233,7 @@ def reuse_stream(res):
 
 def run(tier, seed, build, res):
     reuse_stream(res)
+    undecodable_stream(res)
     rng = random.Random(seed)
     res.rule = ('well-formed documents of the grammar (silent, no mark) and %d '
                 'fault templates appended to random well-formed prefixes '
